@@ -62,6 +62,13 @@ func (k Keeper) Withdraw(ctx sdk.Context, order ordertypes.Order) (sdk.Coin, err
 		} else if shard.Status == ordertypes.ShardWaiting {
 			// refundDec += price * shardSize * shardDuration
 			refundDec = refundDec.Add(shardIncomePerBlock.MulInt64(int64(order.Duration)))
+		} else if shard.Status == ordertypes.ShardCompleted {
+			// prepaid renewal period of this order that has not started yet
+			for _, renewInfo := range shard.RenewInfos {
+				if renewInfo.OrderId == order.Id {
+					refundDec = refundDec.Add(shardIncomePerBlock.MulInt64(int64(renewInfo.Duration)))
+				}
+			}
 		}
 	}
 
